@@ -80,18 +80,25 @@ def closureFam (md : Bool) : CongFam where
   relS := fun a b => R md (.s a) (.s b)
   relL := fun a b => R md (.l a) (.l b)
   relB := fun a b => R md (.b a) (.b b)
+  relBo := fun a b => R md (.b a) (.b b)
+  relRep := fun a x b y => R md (.b a) (.b b) ∧ R md (.e x) (.e y)
   relF := fun a b => R md (.f a) (.f b)
   reflE := R.reflE
   reflT := R.reflT
   reflS := R.reflS
   reflL := R.reflL
   reflB := R.reflB
+  reflBo := R.reflB
   reflF := R.reflF
   transE := .transE
   transT := .transT
   transS := .transS
   transL := .transL
   transB := .transB
+  transBo := .transB
+  transRep := fun h1 h2 => ⟨.transB h1.1 h2.1, .transE h1.2 h2.2⟩
+  boToB := fun h => h
+  repOfOpen := fun hb hc => ⟨hb, hc⟩
   paren := .paren
   un := .un
   bin := .bin
@@ -124,7 +131,7 @@ def closureFam (md : Bool) : CongFam where
     · exact .ifsSome (branches hb) he
   localAssign := fun hn hv => .localAssign hn (es hv)
   localFn := .localFn
-  repeat_ := .repeat_
+  repeat_ := fun h => .repeat_ h.1 h.2
   while_ := .while_
   typeDecl := .typeDecl
   typeFn := .typeFn
